@@ -265,7 +265,8 @@ def structural_problems(pkg, backend, st):
             probs.append(f"result variable {v} declared more than once")
         if not re.search(rf"{v} = {st['result']};\s*\n\s*\}}", src):
             probs.append(f"result variable {v} is not assigned from '{st['result']}' as the last statement of the block")
-    if f'#include "{st["include"]}"' not in src:
+    tu = (pkg.files.get("query.h", "") + src) if backend == "atlas" else src      # query.cxx includes the generated query.h first
+    if f'#include "{st["include"]}"' not in tu:
         probs.append(f"include file {st['include']} not added")
     return probs
 
